@@ -319,8 +319,10 @@ EXTRA = {
            "search proved complete with its own fuel, read-subset derived from it) is true; float flavour: every clause except the redundant "
            "read-subset clause (c11_spec_of_validated_float_partial).",
     "C10": " c10_relaxed_spec_of_validated_partial: on every validated trace in the executable domain the relaxed spec's clauses 'every call "
-           "returned', result kinds, no duplicate keys and removed/reset keys not collected hold (value-decoding clauses and search completeness "
-           "are not proved; they are evaluated on every run).",
+           "returned', result kinds, no duplicate keys, removed/reset keys not collected, the remove clause (Ok only for a requested key, Err never "
+           "for a certainly-present one) and no-lost-update (a completed update is decoded from a later collection of its key) hold; in full "
+           "for scenarios without decodable increments (c10_relaxed_spec_of_validated_undecodable). Not proved, evaluated on every run: the "
+           "'shown' / 'recreated-is-fresh' conjuncts and completeness of the linearisation search.",
     "C02": " c02_spec_of_validated: for ALL traces, accepted by the validator and inside the executable domain (values +-2^k with distinct exponents "
            "< 53, sorted bounds) implies the executable spec written from the property text is true - the oracle cannot raise an alarm on a trace the "
            "model accepts (subset sums of such values decode uniquely: c02_decode_unique).",
